@@ -4,7 +4,7 @@
 //! case line (after the id):
 //!   pattern  level  message  target  module?  file?  line?  thread-name?  mdc(k;v,…)
 //! observation (one field; parts separated by a single space):
-//!   outcome  ops  debug-profile  pid  tid  masked  dates(fmt;utc;render-ok;probe-ok;text,…)
+//!   outcome  ops  debug-profile  pid  tid  masked  dates(fmt;utc;render-ok;probe-ok;text,…)  local-offset-seconds
 //! outcome = ok | err | new-only | PANIC:new | PANIC:encode | unstable-date
 //! ops     = items joined by `,` : `T<string>` text run, `S<fg>/<bg>/<intense>` set_style; `-` when
 //!           nothing was encoded to the end.
@@ -548,7 +548,7 @@ fn run_in_thread(c: &Case) -> String {
                 format!("{};{};{};{};{}", enc_str(f), enc_bool(*utc), enc_bool(*ok), enc_bool(probe_ok(f)), enc_str(&t))
             })
             .collect();
-        format!("{} {} {} {} {}", enc_bool(debug), pid, tid, enc_bool(masked), enc_list(",", &ds))
+        format!("{} {} {} {} {} {}", enc_bool(debug), pid, tid, enc_bool(masked), enc_list(",", &ds), local_offset_secs())
     };
     let fmts = date_formats(&c.pattern);
     let encoder = match guarded(AssertUnwindSafe(|| PatternEncoder::new(&c.pattern))) {
@@ -646,6 +646,89 @@ fn run_in_thread(c: &Case) -> String {
     result
 }
 
+/// `fork` family (C09): encode in this process, fork, encode again in the child with the same
+/// encoder; the child writes `<pid> <tid> <ops>` to a pipe and `_exit`s. Runs in the calling
+/// (main) thread: no thread is spawned for such a case. Observation: the parent's ordinary
+/// observation followed by ` fork <child pid> <child tid> <child ops>`.
+#[cfg(unix)]
+pub fn run_fork_case(c: &Case) -> String {
+    let parent = run_in_thread(c);
+    let encoder = match guarded(AssertUnwindSafe(|| PatternEncoder::new(&c.pattern))) {
+        Ok(e) => e,
+        Err(_) => return format!("{} fork - - -", parent),
+    };
+    let mut fds = [0i32; 2];
+    if unsafe { libc::pipe(fds.as_mut_ptr()) } != 0 {
+        return "bad-case".to_owned();
+    }
+    let child = unsafe { libc::fork() };
+    if child < 0 {
+        return "bad-case".to_owned();
+    }
+    if child == 0 {
+        // the child: encode into memory, write to the pipe, leave without running any destructor
+        let mut cap = Cap::default();
+        let r = guarded(AssertUnwindSafe(|| {
+            encoder
+                .encode(
+                    &mut cap,
+                    &log::Record::builder()
+                        .level(level_of(c.level))
+                        .target(&c.target)
+                        .module_path(c.module.as_deref())
+                        .file(c.file.as_deref())
+                        .line(c.line)
+                        .args(format_args!("{}", c.message))
+                        .build(),
+                )
+                .is_ok()
+        }));
+        let ops = match r {
+            Ok(true) => render_items(&cap.items, false),
+            Ok(false) => "err".to_owned(),
+            Err(_) => "PANIC".to_owned(),
+        };
+        let line = format!("{} {} {}", std::process::id(), thread_id::get(), ops);
+        let bytes = line.as_bytes();
+        let mut off = 0;
+        while off < bytes.len() {
+            let n = unsafe { libc::write(fds[1], bytes[off..].as_ptr() as *const libc::c_void, bytes.len() - off) };
+            if n <= 0 {
+                break;
+            }
+            off += n as usize;
+        }
+        unsafe { libc::_exit(0) };
+    }
+    unsafe { libc::close(fds[1]) };
+    let mut got: Vec<u8> = vec![];
+    let mut buf = [0u8; 4096];
+    loop {
+        let n = unsafe { libc::read(fds[0], buf.as_mut_ptr() as *mut libc::c_void, buf.len()) };
+        if n <= 0 {
+            break;
+        }
+        got.extend_from_slice(&buf[..n as usize]);
+    }
+    unsafe { libc::close(fds[0]) };
+    let mut status = 0i32;
+    unsafe { libc::waitpid(child, &mut status, 0) };
+    format!("{} fork {}", parent, String::from_utf8_lossy(&got))
+}
+
+#[cfg(not(unix))]
+pub fn run_fork_case(c: &Case) -> String {
+    format!("{} fork - - -", run_in_thread(c))
+}
+
+pub fn exec_fork(fields: &[&str]) -> String {
+    process_init();
+    match Case::parse(fields) {
+        Some(c) => run_fork_case(&c),
+        None => "bad-case".to_owned(),
+    }
+}
+
 pub fn run_case(c: &Case) -> String {
     let c2 = c.clone();
     let b = std::thread::Builder::new();
@@ -661,8 +744,30 @@ pub fn run_case(c: &Case) -> String {
 
 static TABLE_CHECKED: std::sync::Once = std::sync::Once::new();
 
+/// The local zone of the exec process: a fixed POSIX zone WEST of UTC with minutes (UTC-05:45), so
+/// that a date rendered in the wrong zone is visible in every field — and, through the sign of
+/// the offset, even when digits are masked. Set before the first chrono call of the process.
+pub const HARNESS_TZ: &str = "XST5:45";
+
+pub fn set_harness_zone() {
+    std::env::set_var("TZ", HARNESS_TZ);
+}
+
+/// `Local::now().offset()` in seconds east of UTC — an environment fact of every observation
+pub fn local_offset_secs() -> i32 {
+    use chrono::Offset;
+    chrono::Local::now().offset().fix().local_minus_utc()
+}
+
+pub fn process_init() {
+    TABLE_CHECKED.call_once(|| {
+        set_harness_zone();
+        assert_char_table();
+    });
+}
+
 pub fn exec(fields: &[&str]) -> String {
-    TABLE_CHECKED.call_once(assert_char_table);
+    process_init();
     match Case::parse(fields) {
         Some(c) => run_case(&c),
         None => "bad-case".to_owned(),
@@ -861,7 +966,7 @@ pub fn gen(rng: &mut Rng, n: usize, thorough: bool, emit: &mut dyn FnMut(String)
         dirs.push(d.to_owned());
     }
     for d in &dirs {
-        for shape in ["{d(F)}", "{d(F)(utc)}", "x{l}{date(F)(local)}y", "{d(a F b):>30}", "{D({d(F)})}", "{R({d(F)})}", "{h({d(F)})}"] {
+        for shape in ["{d(F)}", "{d(F)(utc)}", "x{l}{date(F)(local)}y", "{d(F)(utc)}|{d(F)(local)}|{d(F)}", "{d(a F b):>30}", "{D({d(F)})}", "{R({d(F)})}", "{h({d(F)})}"] {
             emit(Case::simple(&shape.replace('F', d)).line());
         }
     }
